@@ -918,3 +918,16 @@ def condition_only_parameter_declared_before_a_field_parameter(case):
     """auto-07p export with parameters that only the integral conditions use (the check itself relaxes the order
     clause for them while the finding is active; nothing is excluded)"""
     return False
+
+
+@predicate("F-16k")
+def connectivity_delay_under_adaptive_solver(case):
+    """a Connectivity with a delay and no spread under an adaptive solver: the source is passed through a first-order
+    low-pass of rate 1/d (documented in _add_matrix_delay as the minimum ODE order) instead of being read at t - d as on
+    scalar edges"""
+    ps = _pspec(case)
+    if not ps or case.get("cfg", {}).get("solver") not in ("scipy", "diffrax"):
+        return False
+    if case.get("cfg", {}).get("dde_approx"):
+        return False
+    return any(c.get("d") is not None and c.get("sp") is None for c in ps["conns"])
